@@ -326,6 +326,12 @@ func classify(impl, model []string) string {
 		}
 	}
 	if !equalLines(impl, model) {
+		// the code panicked on input the model handles: the input is the failing input
+		for i, l := range impl {
+			if l == "err panic" && i < len(model) && model[i] != "err panic" {
+				return "violation"
+			}
+		}
 		return "disagreement"
 	}
 	for _, l := range model {
